@@ -190,6 +190,9 @@ type Layout struct {
 	Trackers [][]string `json:"trackers,omitempty"`
 	URLList  []string   `json:"url_list,omitempty"`
 	DataSeed uint64     `json:"data_seed"`
+	// ZeroRuns: (offset, length) ranges of the concatenated content that are all zeros
+	// (sparse images, zero-filled files: content that "reads the same as a hole").
+	ZeroRuns [][2]int64 `json:"zero_runs,omitempty"`
 }
 
 type Torrent struct {
@@ -219,6 +222,11 @@ func Build(l Layout) *Torrent {
 			t.Data = append(t.Data, r.Bytes(int(f.Length))...)
 		}
 		t.Total += f.Length
+	}
+	for _, z := range l.ZeroRuns {
+		for i := max(z[0], 0); i < z[0]+z[1] && i < int64(len(t.Data)); i++ {
+			t.Data[i] = 0
+		}
 	}
 	pl := int64(l.PieceLen)
 	t.NumPieces = int((t.Total + pl - 1) / pl)
@@ -391,6 +399,7 @@ func RandomLayout(r *simrt.Rand, o GenOpts) Layout {
 	if single {
 		l.Single = true
 		l.Files = []FileSpec{{Length: total}}
+		addZeroRuns(r, &l, total)
 		return l
 	}
 	nf := r.Range(1, 6)
@@ -497,6 +506,7 @@ func RandomLayout(r *simrt.Rand, o GenOpts) Layout {
 			}
 		}
 	}
+	addZeroRuns(r, &l, total)
 	return l
 }
 
@@ -576,4 +586,31 @@ func bdecLoose(b []byte, i, depth int) (any, int, error) {
 		}
 	}
 	return nil, i, fmt.Errorf("bencode: unexpected byte %q", b[i])
+}
+
+// addZeroRuns makes parts of the content all zeros in one layout out of five: whole pieces,
+// whole files, or arbitrary runs.
+func addZeroRuns(r *simrt.Rand, l *Layout, total int64) {
+	if !r.Chance(0.2) || total <= 0 {
+		return
+	}
+	pl := int64(l.PieceLen)
+	for i := 0; i < r.Range(1, 3); i++ {
+		switch r.Intn(3) {
+		case 0: // whole piece(s)
+			np := (total + pl - 1) / pl
+			p := int64(r.Intn(int(np)))
+			l.ZeroRuns = append(l.ZeroRuns, [2]int64{p * pl, pl * int64(r.Range(1, 2))})
+		case 1: // a whole file
+			off := int64(0)
+			k := r.Intn(len(l.Files))
+			for j := 0; j < k; j++ {
+				off += l.Files[j].Length
+			}
+			l.ZeroRuns = append(l.ZeroRuns, [2]int64{off, l.Files[k].Length})
+		default:
+			o := int64(r.Intn(int(total)))
+			l.ZeroRuns = append(l.ZeroRuns, [2]int64{o, int64(r.Range(1, int(min(total-o, 3*pl))))})
+		}
+	}
 }
